@@ -20,7 +20,7 @@ const ENT = JSON.parse(fs.readFileSync(path.join(VERIF, 'lib/js/data/html5_entit
 const BY_CHAR = new Map()
 for (const [name, v] of Object.entries(ENT)) { if (!BY_CHAR.has(v)) BY_CHAR.set(v, []); BY_CHAR.get(v).push(name) }
 
-const SUCC = ['', '0', '7', 'a', 'F', '"', "'", '\\', '{', '}', 'u', ';', '#', 'x']
+const SUCC = ['', '0', '7', 'a', 'F', '"', "'", '\\', '{', '}', 'u', ';', '#', 'x', '\n', '\r']
 
 /** hexadecimal digits in lower, upper or mixed case (all are the same number) */
 function hexCase(h, k) {
@@ -95,7 +95,7 @@ function stringsFor(ctx) {
     for (let si = 0; si < SUCC.length; si++) {
       const idx = k++
       if (idx % ctx.nshards !== ctx.shard) continue
-      out.push({ s: String.fromCodePoint(c) + SUCC[si], c, si, k: idx })
+      out.push({ s: String.fromCodePoint(c) + SUCC[si], c, si, k: (Math.imul(c, 31) + si * 7 + (c >>> 4)) >>> 0 }) // k selects the spelling: varies with the code point and the successor
     }
   }
   return out
